@@ -94,7 +94,7 @@ reg("C20", "^TestC20$", q=(3000, 4, 600), t=(30000, 16, 3000), fuzz=("FuzzC20", 
     note="Trusted: go-ethereum ABI packer; the 15-line recursive specification. Domain: every call addressed to the bridge is a claim call.",
     design="§3 C20")
 
-reg("C02", "^TestC02$", q=(60, 4, 1200), t=(1500, 16, 5400), batch=60,
+reg("C02", "^TestC02$", q=(30, 8, 1200), t=(1500, 16, 5400), batch=60,
     technique="property-based testing, model-based/stateful: odometer-exhaustive schedules up to a depth bound + rapid random walks driving the real aggsender loop iteration by iteration against a model Agglayer; oracle = model's submission checks + exactly-once settled content",
     text="Exploration: the real aggsender (aggsender.New, real PP flow, queriers, status checker, SQLite storage, ECDSA signer; real "
          "bridge and L1 info stores fed by a generated joint world) is stepped one loop iteration at a time under generated schedules; "
